@@ -45,14 +45,14 @@ class P(vlib.Prop):
         "a call is handed the members of its own grouping (one cache entry per grouping since fix 3541d7b; with the lookup by the key alone this fails: c14_cache_keyed_by_concatenation_refuted, the former finding C08-F2). Its hypotheses: the maps are Go maps "
         "(distinct architectures) and index objects with one identity are one object",
         "inside one BuildPackageLists the per-architecture calls run concurrently and share the process-wide cache; whatever it holds every call gets the difference of its own grouping, so the model computes every answer from an empty cache",
-        "the cache key of indexes with EQUAL names follows map iteration (and, from 12 indexes on, an unstable sort); the dqcache stage uses pairwise different names inside every call",
+        "the cache key of indexes with EQUAL names follows map iteration (and, from 12 indexes on, an unstable sort); the dqcache stage exercises it with all-unnamed pools (the entry lookup of the hook may then miss; a found entry must be the call's own difference)",
         "messages: %q of a printable ASCII string without quote or backslash is the string between double quotes (the generators use only such names); which lacking sibling a message names follows map iteration: the observed message must be one of the model's",
         "everything C02 assumes about the resolver model (map iteration, errors as a boolean)",
     )
     level_text = ("c14_dq_complete / c14_dq_symmetric_complete (for every number and order of architectures the set a resolution starts from is exactly: some OTHER requested architecture lacks this name+version — through NewMultiArch's ByArch map, "
                   "ResolveWorld's sibling loop and disqualifyDifference on package objects), c14_byarch_keys_distinct + c14_no_sibling_dropped (finite enumeration over types.AllArchs read from the source), c14_filtered_members(_multi) "
                   "(a member that is not an install_if package is available at that version on every requested architecture), c14_no_foreign_version_partial, c14_single_arch_unaffected, c14_cache_own_grouping (after any history a call is handed the difference of its own grouping), "
-                  "c14_concurrent_calls_serialised (Get is one critical section: every order of concurrent whole calls hands each its own difference), c14_dq_reason_names_a_lacking_sibling, c14_same_world_same_versions_partial hold for all inputs (unbounded); REFUTED by kernel-checked witnesses replayed on the real code: c14_no_foreign_version / "
+                  "c14_cache_listing_order_irrelevant (whatever order the request map is listed in - it decides the trie path of unnamed indexes - the call gets its own difference), c14_concurrent_calls_serialised (Get is one critical section: every order of concurrent whole calls hands each its own difference), c14_dq_reason_names_a_lacking_sibling, c14_same_world_same_versions_partial hold for all inputs (unbounded); REFUTED by kernel-checked witnesses replayed on the real code: c14_no_foreign_version / "
                   "c14_filtered_members_multi without the install_if proviso (finding C14-F1), c14_cache_keyed_by_concatenation (non-vacuity: the lookup before fix 3541d7b, the former finding C08-F2), c14_same_world_same_versions (two architectures offering the same packages install "
                   "lib-1.0-r0 and lib-1.0: equal-comparing versions, first candidate wins — availability, which is what the property states, is not violated); c14_source_shape pins the source shapes the wiring model transcribes; "
                   "the model is tied to the code by goextract (key expression, AllArchs, loop shapes, message format) and by differential comparison through the real NewMultiArch / ResolveWorld / BuildPackageLists and through call histories.")
